@@ -85,7 +85,9 @@ func isErrNetUnreachable(err error) bool {
 }
 
 func (p *proxySvc) start() (err error) {
-	errC := make(chan error)
+	// Buffered: the goroutine below reports with a non-blocking send, which
+	// would drop the error if it fired before we reach the select.
+	errC := make(chan error, 1)
 	var ctx context.Context
 	go func() {
 		ctx, p.stopFunc = context.WithCancel(context.Background())
